@@ -377,3 +377,58 @@ def r10_continue_to_else(text):
 
 
 REWRITES['R10'] = r10_continue_to_else
+
+
+def r6b_map_err_question(text):
+    """R6b:  `X.map_err(|e| { E })?`  ->  `match X { Ok(v) => v, Err(e) => return Err((E).into_err()) }`
+    simplified for the shape used in apply_file_system_operations, where the function's
+    error type IS the closure's result type:  -> `match X { Ok(v__) => v__, Err(e) => return Err(E) }`"""
+    n = 0
+    while True:
+        done = True
+        for m in re.finditer(r'\.\s*map_err\s*\(', text):
+            cl = _closure_at(text, m.end() - 1)
+            if not cl:
+                continue
+            pat, body, end = cl
+            m2 = re.match(r'\s*\?', text[end:])
+            if not m2:
+                continue
+            rs = _receiver_start(text, m.start())
+            recv = text[rs:m.start()].strip()
+            new = 'match %s { Ok(v__) => v__, Err(%s) => return Err(%s) }' % (recv, pat, body)
+            text = text[:rs] + new + text[end + m2.end():]
+            n += 1
+            done = False
+            break
+        if done:
+            break
+    return text, n
+
+
+REWRITES['R6b'] = r6b_map_err_question
+
+
+def r14_enumerate(text):
+    """R14:  `for (I, X) in E.iter().enumerate() { BODY }`  ->
+             `let mut I: usize = 0; for X in E.iter() { BODY I += 1; }`
+    (textbook desugaring of enumerate; only when BODY has no `continue`)"""
+    n = 0
+    while True:
+        m = re.search(r'for\s*\(\s*(\w+)\s*,\s*(\w+)\s*\)\s*in\s*([\w\.]+?)\.iter\(\)\.enumerate\(\)\s*\{', text)
+        if not m:
+            break
+        toks = lex(text)
+        k = next(i for i, t in enumerate(toks) if t[2] == m.end() - 1)
+        c = match_close(toks, k)
+        body = text[toks[k][3]:toks[c][2]]
+        if re.search(r'\bcontinue\b', body):
+            break
+        new = ('let mut %s: usize = 0;\n        for %s in %s.iter() {' % (m.group(1), m.group(2), m.group(3)) + body +
+               '    %s += 1;\n        }' % m.group(1))
+        text = text[:m.start()] + new + text[toks[c][3]:]
+        n += 1
+    return text, n
+
+
+REWRITES['R14'] = r14_enumerate
